@@ -150,6 +150,11 @@ def plans(prop, tier):
             P.append((k, True, 'exc', 4, (), 'nowait'))        # the worker dies on its own; a consumer only reads the stream
             P.append((k, True, 'ret', 2, ('pause', 'sigkill') if k != 'thread' else ('pause',), 'blocked'))
             P.append((k, True, 'ret', 2, ('pause', 'sigkill') if k != 'thread' else ('pause',), 'poolstyle'))   # as a Pool consumes it
+        # a target that swallows the request: forced termination (process: SIGTERM by the parent; remote: the server kills the
+        # backend and writes the final result itself - no end-of-results message ever comes from the child)
+        for k in ('process', 'remote'):
+            for cons in ('poolstyle', 'blocked'):
+                P.append((k, True, 'stubborn', 2, ('term_stubborn',), cons))
         # the parent-side forwarding thread paused at its line events while the backend is SIGKILLed
         P.append(('remote', True, 'ret', 2, ('fpause',), 'blocked'))
         # the same while it is in the middle of an 32 MB result message (the backend dies part-way through sending it)
@@ -217,6 +222,8 @@ def run(prop, tier, replay=None):
         for bc, x in zip(base_cases, pl):
             if 'fpause' in x[4]:
                 bc.update(fault='fpause', n=10 ** 6)       # the baseline records the line events of the frontend thread
+            if 'term_stubborn' in x[4]:
+                bc.update(fault='term_stubborn', n=0)      # (no undisturbed baseline: that target never ends)
         for bc in base_cases:
             if bc['observe'] == 'slowfin':
                 bc['observe'] = None
@@ -244,10 +251,12 @@ def run(prop, tier, replay=None):
             if 'error' in b:
                 raise MachineryError('baseline run failed: %s' % b['error'])
             events = b.get('events') or []
-            if not events and faults:
+            if not events and faults and 'term_stubborn' not in faults:
                 raise MachineryError('the in-child agent recorded no line events for %s (tracer not loaded?)' % (b['case'],))
             dense = (k == 'thread')
             for f in faults:
+                if f == 'term_stubborn':
+                    continue                               # already run as the "baseline" of this plan
                 pts = pick_points(events, tier, rng, dense)
                 if f in ('sigkill', 'sigterm') and tier == 'quick':
                     pts = pts[::3]
@@ -255,7 +264,7 @@ def run(prop, tier, replay=None):
                     keep = [i for i in pts if events[i - 1][1] == 'send_msg']        # between two writes of one message
                     pts = sorted(set(pts[::2]) | set(keep))
                 extra = {}
-                if f in ('term_after_finish', 'term_idle'):
+                if f in ('term_after_finish', 'term_idle', 'term_stubborn'):
                     pts = [0]
                 if obsmode == 'midmsg':
                     # points inside the longest run of _recv_exact line events = while the big body is being collected
